@@ -21,6 +21,10 @@ import FGVerif.Proofs.C13
   * `C13.replace_empty_any`, `C13.specCheck_sound_any`, `C13.replace_specCheck_any`
   * `C13.inDomainAny_of_inDomain`  the ordered domain is a special case
 
+  `replaceNode` is the repaired model (`idx_offset = max id + 1`); on `inDomainAny` that offset is `len(graph.nodes)`
+  (`C13.offset_eq_of_inDomainAny`, `C13.replaceNode_eq_len`, Proofs/C13Offset.lean), the lemmas in `namespace E` below are
+  about `replaceNodeLen` and are transferred through that equation.  Arbitrary ids: Proofs/C13Ids.lean.
+
   What depends on node order is therefore only (a) the *order* of the result's node list (stated by
   `Spec.nodes`: it is inherited from the parent) and with it `contiguous` (ids in node order:
   `C13.replace_contiguous`, ordered parents only; witness `order_witness` below), and (b) the incident order
@@ -34,10 +38,6 @@ open Graph
 namespace E
 
 variable {g : Graph} {x : Int} {sub : Graph} {anchors : List Nat}
-
-theorem perm_of_contiguousAny {g : Graph} (h : contiguousAny g = true) : g.nodeIds.Perm (upto g.nodes.length) := by
-  unfold contiguousAny at h
-  exact (sortAsc_perm g.nodeIds).symm.trans (List.Perm.of_eq (beq_iff_eq.mp h))
 
 theorem contiguousAny_of_perm {g : Graph} {N : Nat} (h : g.nodeIds.Perm (upto N)) : contiguousAny g = true := by
   have hlen : g.nodes.length = N := by
@@ -105,8 +105,8 @@ theorem Dom.mapId_eq (d : Dom g x sub anchors) {u : Int} (hu : u ∈ ((G2 g x su
   exact (d.inverts u hu (ren x u)).mpr (unren_ren' hne).symm
 
 /-- the node list of the result, for a parent in any node order -/
-theorem Dom.nodes (d : Dom g x sub anchors) : (replaceNode g x sub anchors).nodes = specNodes g x sub := by
-  rw [replaceNode_eq]
+theorem Dom.nodes (d : Dom g x sub anchors) : (replaceNodeLen g x sub anchors).nodes = specNodes g x sub := by
+  rw [replaceNodeLen_eq]
   unfold relabelGraph
   rw [relabelCopy_nodes d.w3]
   have hmap : ∀ p ∈ ((G2 g x sub anchors).removeNode x).nodes,
@@ -131,9 +131,9 @@ theorem Dom.nodes (d : Dom g x sub anchors) : (replaceNode g x sub anchors).node
 
 /-- the ids of the result are `0..n+m-2` in some order -/
 theorem Dom.result_ids (d : Dom g x sub anchors) :
-    (replaceNode g x sub anchors).nodeIds.Perm (upto (g.nodes.length + sub.nodes.length - 1)) := by
-  have h1 : (replaceNode g x sub anchors).nodeIds = ((G2 g x sub anchors).removeNode x).nodeIds.map (ren x) := by
-    rw [replaceNode_eq]
+    (replaceNodeLen g x sub anchors).nodeIds.Perm (upto (g.nodes.length + sub.nodes.length - 1)) := by
+  have h1 : (replaceNodeLen g x sub anchors).nodeIds = ((G2 g x sub anchors).removeNode x).nodeIds.map (ren x) := by
+    rw [replaceNodeLen_eq]
     unfold relabelGraph Graph.nodeIds
     rw [relabelCopy_nodes d.w3, List.map_map, List.map_map]
     apply List.map_congr_left
@@ -175,24 +175,25 @@ theorem compose_incident_order_any (g : Graph) (x : Int) (sub : Graph) (anchors 
 theorem replace_labels_any (g : Graph) (x : Int) (sub : Graph) (anchors : List Nat)
     (hd : inDomainAny g x sub anchors = true) (a b : Int) :
     labelsBetween (replaceNode g x sub anchors) a b = specLabels g x sub anchors a b := by
-  rw [(E.dom_of_inDomainAny hd).labels a b, specLabels_eq, (E.dom_of_inDomainAny hd).toDom0.incident_order]
+  rw [replaceNode_eq_len g x sub anchors hd, (E.dom_of_inDomainAny hd).labels a b, specLabels_eq,
+    (E.dom_of_inDomainAny hd).toDom0.incident_order]
 
 /-- **`replace_node` meets its specification for every parent on ids `0..n-1` in any node order** -/
 theorem replace_exact_any (g : Graph) (x : Int) (sub : Graph) (anchors : List Nat)
     (hd : inDomainAny g x sub anchors = true) : Spec g x sub anchors (replaceNode g x sub anchors) where
   multi := replaceNode_multi g x sub anchors
-  nodes := (E.dom_of_inDomainAny hd).nodes
+  nodes := by rw [replaceNode_eq_len g x sub anchors hd]; exact (E.dom_of_inDomainAny hd).nodes
   labels := fun a b => by rw [replace_labels_any g x sub anchors hd a b]
 
 theorem replace_wf_any (g : Graph) (x : Int) (sub : Graph) (anchors : List Nat)
-    (hd : inDomainAny g x sub anchors = true) : wf (replaceNode g x sub anchors) = true :=
-  E.wf_of_WF (E.dom_of_inDomainAny hd).w4
+    (hd : inDomainAny g x sub anchors = true) : wf (replaceNode g x sub anchors) = true := by
+  rw [replaceNode_eq_len g x sub anchors hd]; exact E.wf_of_WF (E.dom_of_inDomainAny hd).w4
 
 /-- the ids of the result are `0..n+m-2` in some order … -/
 theorem replace_ids_perm (g : Graph) (x : Int) (sub : Graph) (anchors : List Nat)
     (hd : inDomainAny g x sub anchors = true) :
-    (replaceNode g x sub anchors).nodeIds.Perm (E.upto (g.nodes.length + sub.nodes.length - 1)) :=
-  (E.dom_of_inDomainAny hd).result_ids
+    (replaceNode g x sub anchors).nodeIds.Perm (E.upto (g.nodes.length + sub.nodes.length - 1)) := by
+  rw [replaceNode_eq_len g x sub anchors hd]; exact (E.dom_of_inDomainAny hd).result_ids
 
 /-- … so the result is in the full domain again (the step iterates) -/
 theorem replace_contiguousAny (g : Graph) (x : Int) (sub : Graph) (anchors : List Nat)
